@@ -88,6 +88,7 @@ def _run_one(cfile, ob, timeout, mem_kb, members):
 
 BATCH_KINDS = ('bounds', 'variant', 'inv_base', 'div', 'sqrt', 'int_range')
 BATCH_SIZE = int(os.environ.get('STV_BATCH', '10'))
+BIG_HARNESS_LINES = 3000      # symbolic execution of such a harness takes about a minute: amortise it over larger batches
 
 
 def run_batch(cfile, obs, timeout, mem_kb=8 * 1024 * 1024):
@@ -102,11 +103,12 @@ def run_batch(cfile, obs, timeout, mem_kb=8 * 1024 * 1024):
     t0 = time.time()
     out = ''
     try:
+        # one symbolic execution of the harness (up to a few minutes for the largest ones) + one solver query per obligation
         p = subprocess.run(['bash', '-c', 'ulimit -v %d; exec "$@"' % mem_kb, 'x'] + cmd, stdout=subprocess.PIPE, stderr=subprocess.STDOUT,
-                           env=env, timeout=min(timeout, 30) + 60)
+                           env=env, timeout=240 + len(obs) * min(timeout, 30))
         out = p.stdout.decode(errors='replace')
-    except subprocess.TimeoutExpired:
-        pass
+    except subprocess.TimeoutExpired as ex:
+        out = (ex.output or b'').decode(errors='replace')
     secs = time.time() - t0
     res = []
     for o in obs:
@@ -131,14 +133,15 @@ def run_harness(h, workdir, timeout=60, jobs=16, only=None, pool=None):
     if own:
         pool = concurrent.futures.ThreadPoolExecutor(max_workers=jobs)
     allk = os.environ.get('STV_BATCH_ALL', '1') == '1'
-    hard = ('reach', 'local', 'lemma')
+    hard = ('reach', 'local')
     singles = [o for o in obs if (o.kind not in BATCH_KINDS and not allk) or o.kind in hard]
     batchable = [o for o in obs if o not in singles]
     futs = [pool.submit(lambda o=o: [run_one(cfile, o, timeout)]) for o in singles]
     ranges = [o for o in batchable if o.kind == 'int_range']
     batchable = [o for o in batchable if o.kind != 'int_range']
-    for i in range(0, len(batchable), BATCH_SIZE):
-        grp = batchable[i:i + BATCH_SIZE]
+    bs = BATCH_SIZE if h.text.count('\n') < BIG_HARNESS_LINES else 3 * BATCH_SIZE
+    for i in range(0, len(batchable), bs):
+        grp = batchable[i:i + bs]
         futs.append(pool.submit(run_batch, cfile, grp, timeout))
     for i in range(0, len(ranges), 4 * BATCH_SIZE):
         futs.append(pool.submit(run_batch, cfile, ranges[i:i + 4 * BATCH_SIZE], timeout))
